@@ -61,6 +61,11 @@ LOOP_BODIES = [
     "try { s += g(i) + g(0 - i); } catch e { s += 3; };",
     "try { s += f(g(0 - i)); } catch e { s += 4; };",
     "s += h(i);",
+    # an interrupt raised while the arguments of a BUILTIN call are evaluated (println, list members) and caught
+    "try { println(g(0 - i)); } catch e { s += 5; };",
+    "try { l.push(g(0 - i)); } catch e { s += 6; }; if l.len() > 3 { l.pop(); };",
+    # list members called as statements, whatever they answer (push / remove / insert / pop_front in a sliding window)
+    "l.push(i); l.remove(0); l.insert(0, i); l.pop_front(); l.pop(); l.push(i); s += l.len();",
 ]
 
 
